@@ -311,6 +311,16 @@ def gen_file(rng, w, depth, outer_syms, earlier_syms):
     stmts += [forms(a), {'k': 'bind', 'sel': ['mm', 'shared'], 'arg': 'a', 'v': rng.randint(1, 49), '_target': ta},
               forms(b), {'k': 'bind', 'sel': ['mm', 'shared'], 'arg': 'a', 'v': rng.randint(50, 99), '_target': tb}]
     symtab['mm'] = mods[tuple(b)]
+  if rng.random() < 0.12:
+    # a Gin builtin configured in the file: a shared object whose constructor is one of the file's functions (the
+    # model does not look at builtins; the text config_str() prints must still name it and parse back)
+    fns = [t for t in targets if t not in CLASS_IDS(w)]
+    rng.shuffle(fns)
+    for t in fns:
+      sp = one_class(w, symtab, t, spellings(w, symtab, t))
+      if sp and not any(resolve_path(w, symtab, x[:-1]) in CLASS_IDS(w) for x in sp):
+        stmts.append({'k': 'raw', 'text': f'shared{rng.randint(1, 2)}/gin.singleton.constructor = @{".".join(rng.choice(sp))}'})
+        break
   if rng.random() < 0.25:
     # a scoped reference to a class, written *before* the first statement that configures one of its methods
     for i, st in enumerate(stmts):
@@ -411,6 +421,8 @@ def render(stmts, tmp, counter):
       if s['alias']:
         line += f' as {s["alias"]}'
       lines.append(line)
+    elif s['k'] == 'raw':
+      lines.append(s['text'])
     elif s['k'] == 'block':
       lines.append(f'{".".join(s["sel"])}:')
     elif s['k'] == 'bind':
@@ -608,7 +620,7 @@ def _run_once(case, reverse_prog):
 def _strip(stmts):
   out = []
   for s in stmts:
-    if s['k'] == 'nop':
+    if s['k'] in ('nop', 'raw'):
       continue
     d = {k: v for k, v in s.items() if not k.startswith('_')}
     if s['k'] == 'unit':
